@@ -555,4 +555,142 @@ theorem treeShake_preserves_behaviour_computed (ι : String → Nat) (fuel : Nat
     hB ha hrun hsafe
 
 
+/-- function, process and builtin tags: the tags whose type entry is referenced by nothing (index-only) -/
+def isCodeTag : Tag → Bool
+  | .fn _ => true
+  | .proc _ => true
+  | .builtin _ => true
+  | _ => false
+
+theorem any_of_get {P : Prog} {p : Ty → Bool} {n : Nat} {τ : Ty} (h : P.types[n]? = some τ) (hp : p τ = true) :
+    P.types.toList.any p = true := by
+  have : P.types.toList[n]? = some τ := by simpa using h
+  exact List.any_eq_true.mpr ⟨τ, List.mem_of_getElem? this, hp⟩
+
+/-- **The F13 repair as a theorem** (the general form of `legacy_shake_loses_process_entry`'s second half):
+    the current sweep keeps the index entry of every kept function, of every process of a kept function
+    and of every kept builtin — the tags whose type entry no instruction and no other type refers to. For
+    every program whose function types are callable types, and every entry. -/
+theorem shake_keeps_code_tag_presence {P : Prog} {e : Nat} {out : ShakeOut} (h : treeShake P e = some out)
+    (hcall : ∀ (f : Nat) (F : Fn), P.fns[f]? = some F → ∃ p r v, P.types[F.typeId]? = some (.callable p r v))
+    {c c' : Tag} (hcode : isCodeTag c = true)
+    (hc : renameTag out.ren c = some c') (hp : P.tagPresent c = true) : out.prog.tagPresent c' = true := by
+  have hs := treeShake_structRenaming h
+  have hren := (treeShake_keeps_everything_reachable h).1
+  have hIO := (markAll_extra (treeShake_marks h)).2 rfl
+  have hty : out.ren.type = rankMap (sortAsc out.marks.types) := by rw [hren]; rfl
+  have hfn : out.ren.fn = rankMap (sortAsc out.marks.fns) := by rw [hren]; rfl
+  have hbi : out.ren.builtin = rankMap (sortAsc out.marks.builtins) := by rw [hren]; rfl
+  have typeImg : ∀ t, t ∈ out.marks.types → ∃ t', out.ren.type.get t = some t' := by
+    intro t ht; rw [hty]; exact rankMap_get_of_mem (mem_sortAsc.mpr ht)
+  cases c with
+  | fn f =>
+    simp only [renameTag, Option.map_eq_some_iff] at hc
+    obtain ⟨f', _, rfl⟩ := hc
+    rfl
+  | proc f =>
+    simp only [renameTag, Option.map_eq_some_iff] at hc
+    obtain ⟨f', hf', rfl⟩ := hc
+    have hfm : f ∈ out.marks.fns := by rw [hfn] at hf'; exact rank_mem hf'
+    obtain ⟨F, F', hF, hF', _, _, htid⟩ := hs.fns f f' hf'
+    obtain ⟨p, r, v, hcal⟩ := hcall f F hF
+    simp only [Prog.tagPresent, hF, hcal] at hp
+    obtain ⟨n, τ, hn, hτ⟩ := any_eq_get (p := (· == Ty.process (some v) (some r))) hp
+    have : τ = Ty.process (some v) (some r) := by simpa using hτ
+    subst this
+    -- the entry is index-only for the kept function `f`
+    have hio : isIndexOnly P out.marks (Ty.process (some v) (some r)) = true := by
+      simp only [isIndexOnly, List.any_eq_true]
+      exact ⟨f, hfm, by simp [hF, hcal]⟩
+    obtain ⟨n', hn'⟩ := typeImg n (hIO n _ hn hio)
+    obtain ⟨τ0, τ', hτ0, hτ', hrt⟩ := hs.types n n' hn'
+    rw [hn] at hτ0; cases hτ0
+    obtain ⟨σ0, σ', hσ0, hσ', hrs⟩ := hs.types F.typeId F'.typeId htid
+    rw [hcal] at hσ0; cases hσ0
+    simp only [renameTy] at hrs
+    split at hrs
+    · rename_i p2 r2 v2 _ hr2 hv2
+      cases hrs
+      simp only [renameTy, renameOptTy, hr2, hv2, Option.map_some] at hrt
+      cases hrt
+      simp only [Prog.tagPresent, hF', hσ']
+      exact any_of_get hτ' (by simp)
+    · cases hrs
+  | builtin b =>
+    simp only [renameTag, Option.map_eq_some_iff] at hc
+    obtain ⟨b', hb', rfl⟩ := hc
+    have hbm : b ∈ out.marks.builtins := by rw [hbi] at hb'; exact rank_mem hb'
+    obtain ⟨B, B', hB, hB', _, hpt, hrt⟩ := hs.builtins b b' hb'
+    simp only [Prog.tagPresent, hB] at hp
+    obtain ⟨n, τ, hn, hτ⟩ := any_eq_get hp
+    cases τ with
+    | callable p r v =>
+      simp only [Bool.and_eq_true, beq_iff_eq] at hτ
+      obtain ⟨⟨rfl, rfl⟩, hv⟩ := hτ
+      have hio : isIndexOnly P out.marks (Ty.callable B.paramType B.resultType v) = true := by
+        simp only [isIndexOnly, Bool.and_eq_true, List.any_eq_true]
+        exact ⟨hv, b, hbm, by simp [hB]⟩
+      obtain ⟨n', hn'⟩ := typeImg n (hIO n _ hn hio)
+      obtain ⟨τ0, τ', hτ0, hτ', hrt'⟩ := hs.types n n' hn'
+      rw [hn] at hτ0; cases hτ0
+      simp only [renameTy] at hrt'
+      split at hrt'
+      · rename_i p2 r2 v2 hp2 hr2 hv2
+        cases hrt'
+        rw [hpt] at hp2; cases hp2
+        rw [hrt] at hr2; cases hr2
+        -- the receive type stays the empty union
+        have hnev : out.prog.isNeverTy v2 = true := by
+          simp only [Prog.isNeverTy] at hv
+          split at hv
+          · rename_i hu
+            obtain ⟨υ0, υ', hυ0, hυ', hru⟩ := hs.types v v2 hv2
+            rw [hu] at hυ0; cases hυ0
+            simp only [renameTy, mapOpt, Option.map_some] at hru
+            cases hru
+            simp [Prog.isNeverTy, hυ']
+          · cases hv
+        simp only [Prog.tagPresent, hB']
+        exact any_of_get hτ' (by simp [hnev])
+      · cases hrt'
+    | _ => cases hτ
+  | int => cases hcode
+  | bin => cases hcode
+  | ref => cases hcode
+  | tuple t => cases hcode
+  | res r => cases hcode
+
+
+theorem tagPresent_congr {P P' : Prog} (h1 : P'.fns = P.fns) (h2 : P'.types = P.types)
+    (h3 : P'.builtins = P.builtins) (h4 : P'.resources = P.resources) (c : Tag) :
+    P'.tagPresent c = P.tagPresent c := by
+  cases c <;> simp only [Prog.tagPresent, Prog.isNeverTy, h1, h2, h3, h4]
+
+/-- `PresenceKept` restricted to the DATA tags (int, bin, ref, tuples, resources): what remains to be known per
+    program (the validator checks it per instance) once the code tags are covered by
+    `shake_keeps_code_tag_presence`. -/
+def DataPresenceKept (ρ : Ren) (P P' : Prog) : Prop :=
+  ∀ c c', isCodeTag c = false →
+    renameTag ρ c = some c' → P.tagPresent c = true → P'.tagPresent c' = true
+
+theorem presenceKept_of_data {P P' : Prog} {e : Nat} {out : ShakeOut} (h : treeShake P e = some out)
+    (hfns : P'.fns = out.prog.fns) (hbuiltins : P'.builtins = out.prog.builtins) (htypes : P'.types = out.prog.types)
+    (hresources : P'.resources = out.prog.resources)
+    (hcall : ∀ (f : Nat) (F : Fn), P.fns[f]? = some F → ∃ p r v, P.types[F.typeId]? = some (.callable p r v))
+    (hd : DataPresenceKept out.ren P P') : PresenceKept out.ren P P' := by
+  intro c c' hc hp
+  have code : isCodeTag c = true → P'.tagPresent c' = true := by
+    intro hcode
+    rw [tagPresent_congr hfns htypes hbuiltins hresources]
+    exact shake_keeps_code_tag_presence h hcall hcode hc hp
+  cases c with
+  | fn f => exact code rfl
+  | proc f => exact code rfl
+  | builtin b => exact code rfl
+  | int => exact hd _ _ rfl hc hp
+  | bin => exact hd _ _ rfl hc hp
+  | ref => exact hd _ _ rfl hc hp
+  | tuple t => exact hd _ _ rfl hc hp
+  | res r => exact hd _ _ rfl hc hp
+
 end C10
